@@ -342,7 +342,7 @@ def roundtrip_one(c: dict, root: str, built: dict) -> list[tuple[str, str]]:
     cfg = c["cfg"]
     cname = CLASSES[cfg["cls"]].__name__
     sp = c["spelling"]
-    tag = f"{cname} act={cfg['act']} obs={cfg['obs']} kw={cfg['kw']} key={c['key']} fill={c['fill']} path={SPELLINGS[sp]!r}({'Path' if c['as_path'] else 'str'}{', jit' if c.get('jit') else ''}{', pre-existing ' + c['sibling'] + ' named like the suffix-less path' if c.get('sibling') else ''})"
+    tag = f"{cname} act={cfg['act']} obs={cfg['obs']} kw={cfg['kw']} key={c['key']} fill={c['fill']} path={SPELLINGS[sp]!r}({'Path' if c['as_path'] else 'str'}{', jit' if c.get('jit') else ''}{(', a later checkpoint saved under the same stem' if c['sibling'] == 'later-same-stem' else ', pre-existing ' + c['sibling'] + ' named like the suffix-less path') if c.get('sibling') else ''})"
     bk = json.dumps([cfg, c["key"]], sort_keys=True)
     try:
         if bk not in built:
@@ -389,6 +389,19 @@ def roundtrip_one(c: dict, root: str, built: dict) -> list[tuple[str, str]]:
                  f"{tag}: after serialize + effects_barrier the scratch directory holds {[os.path.relpath(f, root) for f in files]}, expected exactly one file")]
     if os.path.dirname(files[0]) != parent:
         return [(f"C18/roundtrip/files/{sp}/wrong-directory", f"{tag}: file written to {os.path.relpath(files[0], root)!r}")]
+    if c.get("sibling") == "later-same-stem":
+        # environment answer: a LATER checkpoint of the same architecture is saved under a name that differs only after the last dot
+        # (p.v2 -> p.v3, run/lr0.001 -> run/lr0.003); the earlier file must still restore the earlier policy
+        try:
+            _, other = build(cfg, c["key"] + 17)
+            sp_path = Path(str(path))
+            other.serialize(str(sp_path.with_name(sp_path.stem + ".v3")))
+            jax.effects_barrier()
+        except Exception as e:
+            return [(f"C18/roundtrip/serialize-raised/{sp}/{type(e).__name__}", f"{tag}: saving a later checkpoint next to the target raised {type(e).__name__}: {str(e)[:300]}")]
+        if len([f for f in files_under(root) if f not in preexisting]) != 2:
+            return [(f"C18/roundtrip/files/{sp}/later-checkpoint-shares-the-file",
+                     f"{tag}: after also saving a different policy as {sp_path.stem + '.v3'!r} the directory holds {[os.path.relpath(f, root) for f in files_under(root)]}: two differently named checkpoints share one file")]
     try:
         loaded = load(cfg, path, c["load_key"])
     except Exception as e:
@@ -823,6 +836,12 @@ def _explore(ctx: Ctx):
                     c = {"cfg": cfg, "key": keys[0], "load_key": load_keys[0], "fill": "init", "spelling": sp, "as_path": sp == "newdir", "sibling": sib, "outputs": False}
                     cases.append(c)
                     ctx.guard(f"sibling:{sib}")
+
+    for lst in G.values():
+        for cfg in (lst[0], lst[-1]) if not thorough else lst:
+            for sp in ("dotted", "plain", "eqx"):
+                cases.append({"cfg": cfg, "key": keys[0], "load_key": load_keys[0], "fill": "init", "spelling": sp, "as_path": False, "sibling": "later-same-stem", "outputs": False})
+                ctx.guard("sibling:later-same-stem")
 
     # vacuity: is restoring observable?  (policy built with the load key differs from the saved one)
     for cfg in allcfg:
